@@ -1301,8 +1301,11 @@ def _d4_http(ctx):
                 if rd and clr and min(x.lineno for x in clr) < min(x.lineno for x in rd):
                     emptied = True
             no_loop = not any(isinstance(x, ast.While) and any(isinstance(y, ast.Call) and U.attr_name(y) == 'read_response' for y in ast.walk(x)) for x in walk_no_nested(m.node))
+            # ... and the replay comes before begin_response: the recorder takes the payload offset of the record at that event
+            bresp = [n for mm, cc, ee in sess.notifies if mm is m and ee == 'begin_response' for n in _nodes_of_call(mc, mpm, cc)]
+            okh = okh and (not bresp or all(any(x.id in d2[y.id] for x in rep) for y in bresp))
             ck.expect(okh and not between and (emptied or no_loop), 'C04-D4', m.qual, 'header buffer: emptied before each block, removed, replayed unchanged, notifier installed',
-                      'the hand-over from the buffered header listener to the response_data notifier is not remove < replay < install with no '
+                      'the hand-over from the buffered header listener to the response_data notifier is not remove < replay < install (replay before begin_response) with no '
                       'read in between and an emptied buffer per block: bytes of the response are missing from, doubled in, or bytes of an interim '
                       'response are added to the response record', m.loc(c))
             continue
